@@ -212,6 +212,11 @@ func cmdCheck(args []string) int {
 			if strings.Contains(h.Name(), "_Thorough") && *tier != "thorough" {
 				continue
 			}
+			// "_Deep": variants kept for development whose cost was not established within the
+			// session; run only with -tier deep, never by a registered command
+			if strings.Contains(h.Name(), "_Deep") && *tier != "deep" {
+				continue
+			}
 			nHarness++
 			groupFns = append(groupFns, h)
 			t0 := time.Now()
